@@ -146,6 +146,8 @@ class LibMixin:
             # link with getattr: hasattr true => attribute access does not raise AttributeError
             return f_has
         nm_ = self.table.names[cid]
+        if attr == "__dict__" and self.table.info.get(cid) is None:
+            return VBool(nm_ in ("function", "module", "type", "method"))     # builtin objects with an attribute dict
         if nm_ in ("dict", "list", "tuple", "set", "frozenset", "deque", "frame", "code"):
             return VBool(attr in ("__len__", "__iter__"))
         ci = self.table.info.get(cid)
